@@ -7,6 +7,7 @@ import AdeuModel.Model.Init
 import AdeuModel.DriverDoc
 import AdeuModel.Model.Mapper
 import AdeuModel.Model.ExtractSegs
+import AdeuModel.Model.ShownShape
 import AdeuModel.Model.Engine
 import AdeuModel.Model.Markup
 import AdeuModel.Model.Tools
@@ -248,8 +249,12 @@ def handleApplyEdits (j : Json) : Except String Json := do
     d.commentsIds.map (·.2) == d.commentsCex.map (·.1)
   let nodupB (d : Doc.Document) : Bool := (d.comments.map (·.id)).eraseDups.length == d.comments.length
   let added := s1.doc.comments.length - s0.doc.comments.length
+  -- C10 shown-with theorems: shapes in the result whose hypotheses hold / whose conclusion holds (reader model)
+  let shown := Doc.shownCountsDoc s1.doc
   pure <| Json.mkObj [("doc", DriverDoc.docFullJ s1.doc), ("applied", toJson ap), ("skipped", toJson sk),
     ("concl", Json.mkObj [("hyp_none_applied", toJson noneApplied),
+      ("hyp_commented_change_shape_in_result", toJson (decide (shown.1 > 0))),
+      ("commented_change_shape_shown_with_change", toJson (decide (shown.1 > 0) && shown.1 == shown.2)),
       ("none_applied_and_content_same", toJson (noneApplied && contentSame)),
       ("total_ok", toJson (ap + sk == edits.length)),
       ("comments_only_grow", toJson commentsGrow),
